@@ -17,6 +17,7 @@ import pandas as pd  # type: ignore
 from netCDF4 import Dataset  # type: ignore
 
 from ladim.timekeeper import normalize_period
+from ladim.warm_start import particles_released
 
 if TYPE_CHECKING:
     from pathlib import Path
@@ -116,7 +117,7 @@ class ParticleReleaser(Iterator[pd.DataFrame]):
         if warm_start_file:
             # Get particle data from  warm start file
             with Dataset(warm_start_file) as f:
-                warm_particle_count = np.max(f.variables["pid"][:]) + 1
+                warm_particle_count = particles_released(f)
             logger.info("  warm_particle_count: %d", warm_particle_count)
         #         for name in config["particle_variables"]:
         #             pvars[name] = f.variables[name][:warm_particle_count]
